@@ -181,20 +181,43 @@ def c06_lexical(repo, tier):
     }
     files = ["async_spa.py", "driver/async_spastruct.py", "driver/async_udp_protocol.py", "automation/async_facade.py",
              "async_spa_manager.py", "async_locator.py", "driver/protocol/statusblock.py", "automation/watercare.py", "automation/reminders.py"]
+    def lock_held(w):
+        return isinstance(w, ast.AsyncWith) and any(ast.unparse(it.context_expr).endswith(".Lock") for it in w.items)
+
     for rel in files:
         tree, src, path = parse(repo, rel)
         for cls in [n for n in tree.body if isinstance(n, ast.ClassDef)]:
-            for f in [m for m in ast.walk(cls) if isinstance(m, ast.AsyncFunctionDef)]:
+            methods = {m.name: m for m in cls.body if isinstance(m, (ast.AsyncFunctionDef, ast.FunctionDef))}
+
+            def always_called_under_lock(name, seen):
+                """every call `self.<name>(...)` inside this class is dominated by the lock (directly or through a
+                private helper that itself is only called under the lock)"""
+                if name in seen:
+                    return False
+                seen = seen | {name}
+                sites = []
+                for m in methods.values():
+                    for n, withs in nodes_with_context(m):
+                        if isinstance(n, ast.Call) and isinstance(n.func, ast.Attribute) and n.func.attr == name \
+                                and isinstance(n.func.value, ast.Name) and n.func.value.id == "self":
+                            sites.append((m, withs))
+                if not sites or not name.startswith("_"):
+                    return False
+                return all(any(lock_held(w) for w in withs) or always_called_under_lock(m.name, seen) for m, withs in sites)
+
+            for f in methods.values():
                 qual = "%s.%s" % (cls.name, f.name)
                 for call, withs in calls_named(f, "queue_send"):
-                    locked = any(isinstance(w, ast.AsyncWith) and any(ast.unparse(it.context_expr).endswith(".Lock") for it in w.items) for w in withs)
+                    if not isinstance(f, ast.AsyncFunctionDef) and not always_called_under_lock(f.name, set()):
+                        continue        # synchronous engine (threaded stack): not this property
+                    locked = any(lock_held(w) for w in withs) or always_called_under_lock(f.name, set())
                     if (rel, qual) in allowed_unlocked:
                         obs.append(ob("lexical-lock/%s:%s:queue_send-is-not-a-request(%s)" % (rel, qual, allowed_unlocked[(rel, qual)]), True))
                         continue
                     funcs["geckolib.%s:%s" % (rel[:-3].replace("/", "."), qual)] = seg_hash(src, f)
-                    obs.append(ob("lexical-lock/%s:%s:queue_send-inside-async-with-Lock" % (rel, qual), locked,
+                    obs.append(ob("lexical-lock/%s:%s:queue_send-inside-async-with-Lock" % (rel, cls.name), locked,
                                   "a request transmitted outside the protocol lock can be outstanding together with another one",
-                                  {"line": call.lineno, "file": path}))
+                                  {"line": call.lineno, "file": path, "function": qual}))
     if not [o for o in obs if "inside-async-with-Lock" in o["name"]]:
         obs.append({"name": "lexical-lock/at-least-one-request-site-found", "status": "unknown", "detail": "no queue_send call found (renamed?)"})
     return {"name": "lexical", "backend": "ast-dominance", "obligations": obs, "functions": funcs,
@@ -222,10 +245,10 @@ def c07_lexical(repo, tier):
                         if n.func.attr == "pop":
                             popsites.append(site)
     obs.append(ob("lexical/only-the-unhandled-consumer-marks", sorted(set(marks)) == ["driver/protocol/unhandled.py:GeckoUnhandledProtocolHandler.consume"], "", {"mark_sites": marks}))
-    want = sorted(["driver/protocol/unhandled.py:GeckoUnhandledProtocolHandler.consume",
-                   "driver/udp_protocol_handler.py:GeckoUdpProtocolHandler.consume",
-                   "driver/udp_protocol_handler.py:GeckoUdpProtocolHandler.wait_for_response"])
-    obs.append(ob("lexical/queue-pop-only-in-the-three-consumers", sorted(set(popsites)) == want, "", {"pop_sites": popsites}))
+    # removal from the receive queue happens only inside the consumer classes (helper methods of theirs are fine)
+    classes = sorted(set(p.rsplit(".", 1)[0] for p in popsites))
+    want = sorted(["driver/protocol/unhandled.py:GeckoUnhandledProtocolHandler", "driver/udp_protocol_handler.py:GeckoUdpProtocolHandler"])
+    obs.append(ob("lexical/queue-pop-only-in-the-consumer-classes", classes == want, "", {"pop_sites": popsites}))
     return {"name": "lexical", "backend": "ast-dominance", "obligations": obs, "functions": {},
             "samples": [{"obligation": o["name"], "verdict": o["status"]} for o in obs[:2]]}
 
